@@ -25,6 +25,7 @@ Inductive st :=
 | SCall (f : str) (args : list st)   (* f(args) *)
 | SLst (es : list st)               (* [e1, ..., en] *)
 | SMap (kvs : list (st * st))        (* {k1: v1, ..., kn: vn} *)
+| SMsg (lead : bool) (names : list str) (fields : list (str * st))   (* [.]a.b.T{f1: v1, ..., fn: vn} *)
 | SNot (n : nat) (a : st)            (* n + 1 '!' *)
 | SNeg (n : nat) (a : st)            (* n + 1 '-' *)
 | SMul (op : tk) (a b : st)
@@ -37,7 +38,7 @@ Inductive st :=
 
 Definition prec (t : st) : nat :=
   match t with
-  | SId _ | SLit _ | SSel _ _ | SIdx _ _ | SMCall _ _ _ | SCall _ _ | SLst _ | SMap _ => 7
+  | SId _ | SLit _ | SSel _ _ | SIdx _ _ | SMCall _ _ _ | SCall _ _ | SLst _ | SMap _ | SMsg _ _ _ => 7
   | SNot _ _ | SNeg _ _ | SNegLit _ | SNegDbl _ => 6 | SMul _ _ _ => 5 | SAdd _ _ _ => 4 | SRel _ _ _ => 3
   | SAnd _ _ => 2 | SOr _ _ => 1 | SCond _ _ _ => 0 | SParen _ => 7
   end.
@@ -58,6 +59,14 @@ Definition lit_val (l : slit) : value :=
   | LInt z => VInt z | LUint z => VUInt z | LBool b => VBool b | LNull => VNull
   | LStr _ s => VStr s | LBytes _ b => VBytes b
   | LDbl t => match double_literal false t with Some d => VDbl d | None => VNull end
+  end.
+
+(** IDENT ('.' IDENT)* *)
+Fixpoint ids_tk (names : list str) : list tk :=
+  match names with
+  | [] => []
+  | [a] => [TIdent a]
+  | a :: r => TIdent a :: TDot :: ids_tk r
   end.
 
 Fixpoint raw (t : st) : list tk :=
@@ -83,6 +92,13 @@ Fixpoint raw (t : st) : list tk :=
                                 | (k, v) :: l' => raw k ++ [TColon] ++ raw v ++
                                                   match l' with [] => [] | _ => TComma :: go l' end
                                 end) kvs ++ [TRBrace]
+  | SMsg lead names fields =>
+      (if lead then [TDot] else []) ++ ids_tk names ++ [TLBrace] ++
+      (fix go (l : list (str * st)) : list tk :=
+         match l with
+         | [] => []
+         | (n, v) :: l' => TIdent n :: TColon :: raw v ++ match l' with [] => [] | _ => TComma :: go l' end
+         end) fields ++ [TRBrace]
   | SNot n a => repeat TBang (S n) ++ at_ 7 a
   | SNeg n a => repeat TMinus (S n) ++ at_ 7 a
   | SMul op a b => at_ 5 a ++ [op] ++ at_ 6 b
@@ -116,6 +132,10 @@ Fixpoint ast (t : st) : expr :=
   | SLst es => EList (many es)
   | SMap kvs => EMap ((fix go (l : list (st * st)) : list (expr * expr) :=
                          match l with [] => [] | (k, v) :: l' => (ast k, ast v) :: go l' end) kvs)
+  | SMsg lead names fields =>
+      EStruct (if lead then 46%N :: join_dots names else join_dots names)
+              ((fix go (l : list (str * st)) : list (str * expr) :=
+                  match l with [] => [] | (n, v) :: l' => (n, ast v) :: go l' end) fields)
   | SNot n a => if Nat.odd (S n) then ECall $"!_" None [ast a] else ast a
   | SNeg n a => if Nat.odd (S n) then ECall $"-_" None [ast a] else ast a
   | SMul op a b => ECall (opname (mulop_name op)) None [ast a; ast b]
@@ -155,6 +175,9 @@ Fixpoint wf_st (t : st) : Prop :=
   | SLst es => all es
   | SMap kvs => (fix go (l : list (st * st)) : Prop :=
                    match l with [] => True | (k, v) :: l' => wf_st k /\ wf_st v /\ go l' end) kvs
+  | SMsg _ names fields =>
+      names <> [] /\
+      (fix go (l : list (str * st)) : Prop := match l with [] => True | (_, v) :: l' => wf_st v /\ go l' end) fields
   | SNot _ a | SParen a => wf_st a
   | SNeg n a => wf_st a /\ (n = O -> is_number_tok (if 7 <=? prec a then raw a else TLParen :: raw a ++ [TRParen]) = false)
   | SMul op a b => mulop_name op <> None /\ wf_st a /\ wf_st b
@@ -181,6 +204,9 @@ Fixpoint wf_stb (t : st) : bool :=
   | SLst es => all es
   | SMap kvs => (fix go (l : list (st * st)) : bool :=
                    match l with [] => true | (k, v) :: l' => wf_stb k && wf_stb v && go l' end) kvs
+  | SMsg _ names fields =>
+      (match names with [] => false | _ => true end) &&
+      (fix go (l : list (str * st)) : bool := match l with [] => true | (_, v) :: l' => wf_stb v && go l' end) fields
   | SNot _ a | SParen a => wf_stb a
   | SNeg n a => wf_stb a && (negb (Nat.eqb n 0) || negb (is_number_tok (if 7 <=? prec a then raw a else TLParen :: raw a ++ [TRParen])))
   | SMul op a b => (match mulop_name op with Some _ => true | None => false end) && wf_stb a && wf_stb b
